@@ -165,7 +165,15 @@ class C16(Prop):
         shape = list(case['shape'])
         cliques = ac.tup(case['cliques'])
         total = case['total']
-        dom = Domain(attrs, shape)
+        if sum(map(ord, ''.join(map(str, case['attrs'])))) + len(cliques) + int(case.get('iters', 0)) & 1:
+            # attribute names as a program gets them from a csv / json file: equal strings, but not the same objects in the domain and
+            # in the cliques (one-character literals are interned by CPython and would hide any identity comparison in the code)
+            fresh = lambda a: ''.join(['v_', a])
+            cliques = [tuple(fresh(a) for a in cl) for cl in cliques]
+            dom = Domain([fresh(a) for a in attrs], shape)
+            attrs = [fresh(a) for a in attrs]
+        else:
+            dom = Domain(attrs, shape)
         gbp = kind.startswith('gbp')
         exact = kind.endswith('exact')
         if gbp:
